@@ -170,12 +170,64 @@ def run(ctx, scale=1):
                             {"kind": "parens", "expr": text, "variant": vt})
 
 
+    # ---- sub-queries are expressions too: a second / third pair of parentheses around one must be inert,
+    # and it must read the same in every position
+    SUBQ = ["select a1 from u2", "select a1 from u2 order by a1 limit 1", "select a1 from u2 where b3 = 4 order by a1 desc limit 5 offset 2",
+            "select a1 from u2 union select c3 from v4 order by 1 limit 3", "select max(a1) from u2 group by b3 having count(*) > 1 order by 1",
+            "select a1 from u2 order by a1 fetch first 2 rows only"]
+    FORMS = ["{q}", "c5 + {q}", "c5 = {q}", "c5 in {q}", "exists {q}", "coalesce({q}, 0)", "case when c5 then {q} else 1 end"]
+    for q in SUBQ:
+        for form in FORMS:
+            base_text = form.format(q="(" + q + ")")
+            ref = R.parse_raw(POSITIONS[0][1].format(e=base_text))
+            if ref[0] != "ok":
+                rep.count("subquery", "rejected")
+                continue
+            ref_tree = C.cdump(C.canon(get(ref[1], POSITIONS[0][2])))
+            for layers in (2, 3):
+                vt = form.format(q="(" * layers + q + ")" * layers)
+                for name, tpl, path in POSITIONS:
+                    if name in ("between_operand", "in_operand", "cast_operand") and form != "{q}":
+                        continue
+                    rb = R.parse_raw(tpl.format(e=base_text))
+                    rv = R.parse_raw(tpl.format(e=vt))
+                    rep.case("subq|%s|%s|%d" % (name, base_text, layers))
+                    rep.count("subquery", "compared")
+                    try:
+                        gb = "$err:" + rb[1] if rb[0] != "ok" else C.cdump(C.canon(get(rb[1], path)))
+                        gv = "$err:" + rv[1] if rv[0] != "ok" else C.cdump(C.canon(get(rv[1], path)))
+                    except Exception:
+                        continue
+                    if gb.startswith("$err"):
+                        continue
+                    if gv != gb:
+                        rep.finding("parens-change-tree:subquery", "%r -> %s but with %d layers %r -> %s" % (base_text[:100], gb[:150], layers, vt[:110], gv[:150]),
+                                    {"kind": "pair", "position": name, "a": tpl.format(e=base_text), "b": tpl.format(e=vt), "path": path})
+                    if gb != ref_tree and layers == 2:
+                        rep.finding("position:%s" % name, "%r: as select item %s, in %s %s" % (base_text[:100], ref_tree[:150], name, gb[:150]),
+                                    {"kind": "position", "expr": base_text, "position": name})
+    # a whole statement in parentheses
+    for q in SUBQ:
+        a, b, c = R.parse(q), R.parse("(" + q + ")"), R.parse("((" + q + "))")
+        rep.count("subquery", "statement")
+        if C.cdump(b) != C.cdump(c):
+            rep.finding("parens-change-tree:statement", "(%s) -> %s but ((%s)) -> %s" % (q[:80], C.cdump(b)[:150], q[:80], C.cdump(c)[:150]),
+                        {"kind": "pair", "position": "statement", "a": "(" + q + ")", "b": "((" + q + "))", "path": []})
+
+
 def search(ctx):
     run(ctx, scale=4)
 
 
 def replay(ctx, p):
     R = C.real()
+    if p.get("kind") == "pair":
+        ra, rb = R.parse_raw(p["a"]), R.parse_raw(p["b"])
+        ga = "$err" if ra[0] != "ok" else C.cdump(C.canon(get(ra[1], p["path"])))
+        gb = "$err" if rb[0] != "ok" else C.cdump(C.canon(get(rb[1], p["path"])))
+        print(ga)
+        print(gb)
+        return ga != gb
     ref = R.parse_raw(POSITIONS[0][1].format(e=p["expr"]))
     ref_tree = C.cdump(C.canon(get(ref[1], POSITIONS[0][2])))
     if p["kind"] == "position":
